@@ -48,6 +48,13 @@ if __name__ == "__main__":
     mk("c08-cancel-fn-exception-means-true", R + "poll.py", "                \"Exception during cancel on %s/%s\", future, descriptor.result\n            )\n            return False", "                \"Exception during cancel on %s/%s\", future, descriptor.result\n            )\n            return True")
     mk("c08-poll-error-fails-all-registered", R + "poll.py", "            [d.yield_exception(e) for d in descriptors]", "            [d.yield_exception(e) for (_, d) in self._poll_descriptors]")
     mk("c08-pollfuture-init-order", R + "poll.py", "        self.add_done_callback(self._clear_executor)\n        self._delegate.add_done_callback(self._delegate_resolved)\n", "        self._delegate.add_done_callback(self._delegate_resolved)\n        self.add_done_callback(self._clear_executor)\n")
+    # C09
+    mk("c09-deadline-plus-one", R + "timeout.py", "            elif job.deadline < now:", "            elif job.deadline < now + 1:")
+    mk("c09-submit-no-wake", R + "timeout.py", "                self._jobs.append(job)\n            self._jobs_write.set()", "                self._jobs.append(job)")
+    mk("c09-keep-overdue-jobs", R + "timeout.py", "            executor._jobs = pending\n", "            executor._jobs = pending + overdue\n")
+    mk("c09-min-to-max", R + "timeout.py", "earliest = min([job.deadline for job in pending])", "earliest = max([job.deadline for job in pending])")
+    mk("c09-deadline-from-default", R + "timeout.py", "job = Job(future, delegate_future, monotonic() + timeout)", "job = Job(future, delegate_future, monotonic() + (self._timeout or timeout))")
+    mk("c09-wait-time-not-recomputed-on-done", R + "timeout.py", "            elif job.deadline < now:\n                overdue.append(job)", "            elif job.deadline <= now + 0.03:\n                overdue.append(job)")
     # C07
     mk("c07-throttle-ge-to-gt", R + "throttle.py", "(executor._running_count.value >= throttle)", "(executor._running_count.value > throttle)")
     mk("c07-incr-after-submit", R + "throttle.py", "            executor._running_count.incr()\n            metrics.THROTTLE_QUEUE", "            metrics.THROTTLE_QUEUE")
